@@ -5,12 +5,12 @@ from props.common import TRUSTED_BASE, ASSUMPTIONS as _A
 
 ID = 'C10'
 LEAN_MODULES = ['HidVerif.Props.C10']
-THEOREMS = ['HidVerif.Props.C10.' + n for n in ('ascii_always_assemblable', 'char_immediate_always_assemblable', 'lex_total', 'parse_never_runs_out_of_fuel', 'parse_total', 'volatile_initialiser_means_const_array', 'cast_node_operand_type')] + ['HidVerif.Hid.Parse.parse_never_out_of_fuel']
+THEOREMS = ['HidVerif.Props.C10.' + n for n in ('ascii_always_assemblable', 'char_immediate_always_assemblable', 'lex_total', 'parse_never_runs_out_of_fuel', 'parse_total', 'volatile_initialiser_means_const_array', 'cast_node_operand_type', 'typechecker_never_internal', 'front_end_total')] + ['HidVerif.Hid.TC.tcStmt_modes', 'HidVerif.Hid.TC.tcExpr_ni', 'HidVerif.Hid.TC.tcExpr_fl'] + ['HidVerif.Hid.Parse.parse_never_out_of_fuel']
 TRUSTED = TRUSTED_BASE + ['the lexer/parser/typechecker models (total Lean functions) tied by the lex/parse/tc suites on error class and position']
 ASSUMPTIONS = _A + ['RUNTIME BEHAVIOUR NOT MODELLED: exit status, stderr and the output file of the hidc process are observed on the real '
                     'command-line tool (subprocess), not proved',
                     'unreachability of the generator-side assertions and InternalCompilerError for accepted programs is validated, not proved',
-                    'the lexer, parser and typechecker models are total functions (no partial def in their call graphs; parse_never_runs_out_of_fuel); that the typechecker model never answers .internal (the BREAK/DEFEAT assertions of FuncDefinition.evaluate, unknown operator names) is validated, not proved']
+                    'the lexer, parser and typechecker models are total functions and front_end_total shows they answer a tree or a located/type error for every text; what stays validated is that they are the implementation (lex/parse/tc suites: an AssertionError or other exception of the real front end is compared, as INTERNAL, with the model that provably never says it)']
 RULE = ('four input streams (random text over the lexical alphabet, token soups, token- and type-level mutations of generated programs, '
         'generated well-typed programs, plus non-UTF-8 files and 5000-digit literals through the CLI) x options -m {8,16,24,32,64}, -s '
         '{0,1,500,10^6}, --unchecked, --lint; in-process: only CompilerError may escape, its position lies inside the source and '
